@@ -702,6 +702,14 @@ func main() {
 			c.Count("unifier.lifecycle")
 		}
 	}
+	// ---- the engine's breaker driven by the engine: failures that take time (slow.go)
+	for _, d := range []time.Duration{1500 * time.Millisecond, 3 * time.Second} {
+		if !thorough && d > 2*time.Second {
+			continue
+		}
+		c.Emit(map[string]any{"kind": "engine-slow", "impl": slowFailureCase(d, 8)})
+		c.Count("engine-slow")
+	}
 	// ---- one long-lived EndpointManager / LifecycleUnifier through histories over several endpoints (manager.go)
 	emitManagerCases(c, r, thorough)
 	L := 6
